@@ -48,7 +48,70 @@ def make_view(s):
     return Harness("hilbertat_%s" % s, args, body, ret="std::size_t", meta={"S": s, "kind": "view"})
 
 
+def make_loaded(s):
+    """the view of a field that came out of read_binary: the walk's side must derive from the extents that were READ"""
+    ct = harness.STYPES[s][0]
+    args = [(ct, ('c', 0)), (ct, ('c', 1)), ("std::istream *", 'is')]
+    body = """
+  using P = verif::aprobe<float, 1>;
+  using B = hilbert<verif::vd<%s, 2>, P>;
+  B::owning_data_t o = B::owning_data_t::read_binary(*a2);
+  B::non_owning_data_t v(o);
+  auto & r = v.at({a0, a1});
+  return reinterpret_cast<std::size_t>(&r);
+""" % ct
+    return Harness("hilbertld_%s" % s, args, body, ret="std::size_t", meta={"S": s, "kind": "loaded"})
+
+
+def run_loaded(rep, tier):
+    """C14.d-load: lookups through a reloaded Hilbert field walk a square whose side is round_pow2(max of the extents read)"""
+    hs = [make_loaded("size_t")]
+    harness.build(hs, "c14hl", includes=OPAQUE)
+    for h in hs:
+        inst = "hilbert<%s>::at after read_binary" % h.meta["S"]
+        if h.error:
+            loc, msg = harness.first_error(h)
+            rep.fail("C14.d-load", inst, loc, "does not compile: " + msg)
+            continue
+        sl = ir.Sym(ir.Func(h.func), cut_loops=True, epochs=True)
+        sk = sl.opaque_calls("_ZN5verif4sink")
+        rc = [c for c in sl.calls if c.name and c.name.startswith(RP2)]
+        coords = (('arg', 0), ('arg', 1))
+        if len(sk) != 1:
+            raise AnalysisBroken("C14.d-load %s: %d storage queries" % (inst, len(sk)))
+        pos = sk[0].args[1]
+        if rc:
+            ext = sorted({a for c in rc for a in ir.atoms(c.args[0]) if a[0] == 'wr'}, key=repr)
+            ok = len(rc) == 1 and len(ext) == 2 and relayout_is_max(rc[0].args[0], ext) and any(a == ('call', rc[0].name, rc[0].n) for a in ir.atoms(pos))
+            if ok:
+                rep.ok("C14.d-load", inst)
+            else:
+                rep.fail("C14.d-load", inst, FILE, "after loading, the walk's side is round_pow2(%s): not the larger of the two extents read from the stream, or not used by the lookup" % ir.show(rc[0].args[0])[:80])
+            continue
+        if not sl.loops and not (hilbert_curve.leaves(pos) & set(coords)):
+            rep.fail("C14.d-load", inst, FILE, "after loading, the curve position is %s for every coordinate: the side of the walk is not derived from the extents that were read (a member the loading route does not set)" % ir.show(ir.ungate(pos))[:60])
+            continue
+        ext = sorted({a for i in sl.iv.values() for a in ir.atoms(i["init"]) if a[0] == 'wr'}, key=repr)
+        if len(ext) != 2:
+            rep.undecided("C14.d-load %s: the walk after loading neither calls round_pow2 nor starts from two words read from the stream; not decided" % inst)
+            continue
+        px, virt, bad = hilbert_curve.virtual_side(sl, tuple(ext), coords)
+        if bad:
+            rep.fail("C14.d-load", inst, FILE, "after loading: " + bad)
+        elif px is None:
+            rep.undecided("C14.d-load %s: side of the walk after loading not identified" % inst)
+        else:
+            rep.ok("C14.d-load", inst)
+
+
+def relayout_is_max(t, ext):
+    from . import relayout
+    ok, _ = relayout.is_max_of(t, ext)
+    return bool(ok)
+
+
 def declare(rep):
+    rep.rule("C14.d-load", "a Hilbert field that came out of read_binary walks a square of side round_pow2(max of the extents read)", floor=1)
     rep.rule("C14.d-compile", "Hilbert index / lookup harness compiles", floor=2)
     rep.rule("C14.d-max", "the one side length is round_pow2 of max(extent0, extent1) (D-ord over both orderings)", floor=2)
     rep.rule("C14.d-curve", "the walk is a Hilbert curve for every k: quadrant digits and symmetries read off the loop body satisfy the induction (bijection, origin, corner fixpoint, facing exits/entries); levels run n/2..1", floor=2)
@@ -73,8 +136,50 @@ def run(rep, tier):
         t = ir.Taint(fn, {h.role_index(('c', 0)): 'c0', h.role_index(('c', 1)): 'c1', s0: 'raw', s1: 'raw'},
                      call_label=lambda i: 'n' if (i.get("callee") or "").startswith(RP2) else None)
         all_r = t.calls(RP2)
+        if len(all_r) == 0:
+            # the side is not obtained from utility::round_pow2 (a bit trick, a value cached by a constructor): decide its value
+            sl = ir.Sym(fn, cut_loops=True)
+            if sl.unknown:
+                raise AnalysisBroken("C14.d %s: unmodelled instruction %s" % (inst, sl.unknown[0]["op"]))
+            ext = (('arg', s0), ('arg', s1))
+            coords = (('arg', h.role_index(('c', 0))), ('arg', h.role_index(('c', 1))))
+            if not sl.loops:
+                # the walk was folded away altogether: which position is queried?
+                sk0 = sl.opaque_calls("_ZN5verif4sink")
+                res0 = sl.retval() if h.meta["kind"] == "static" else (sk0[0].args[1] if len(sk0) == 1 else None)
+                if res0 is not None and not (hilbert_curve.leaves(res0) & set(coords)):
+                    rep.fail("C14.d-dep", inst, FILE, "the curve position is %s for every coordinate: the walk's side does not derive from the extents on this construction route (a constant, e.g. a member no constructor on this route sets)" % ir.show(ir.ungate(res0))[:60])
+                    continue
+            px, virt, bad = hilbert_curve.virtual_side(sl, ext, coords)
+            if bad:
+                rep.fail("C14.d-max", inst, FILE, bad)
+                continue
+            if px is None:
+                raise AnalysisBroken("C14.d %s: no round_pow2 call and no start value of the walk that depends on the extents only; not decided" % inst)
+            rep.ok("C14.d-max", inst)
+            rep.ok("C14.d-dep", inst)
+            if h.meta["kind"] == "static":
+                resv = px.ret_cond and ir.ungate(hilbert_curve.subst(sl.retval(), px.m))
+            else:
+                sk = sl.opaque_calls("_ZN5verif4sink")
+                if len(sk) != 1:
+                    rep.fail("C14.d-curve", inst, FILE, "expected one storage query, found %d" % len(sk))
+                    continue
+                resv = hilbert_curve.subst(sk[0].args[1], px.m)
+            hilbert_curve.EXT = ext
+            try:
+                bad, desc = hilbert_curve.check(px, coords[0], coords[1], virt, resv)
+            finally:
+                hilbert_curve.EXT = None
+            if bad:
+                rep.fail("C14.d-curve", inst, FILE, bad, data=desc)
+            else:
+                rep.ok("C14.d-curve", inst)
+                rep.extra.setdefault("hilbert_induction", {})[inst] = dict(desc, side="computed without round_pow2; equals the least power of two >= the larger extent at every extent pair where it can change",
+                                                                           verdict="induction closed: bijective, starts at the origin, consecutive positions edge-adjacent, for every k")
+            continue
         if len(all_r) != 1 or len(rcalls) != 1:
-            rep.fail("C14.d-max", inst, FILE, "expected exactly one round_pow2 call ahead of the walk, found %d" % len(all_r))
+            rep.undecided("C14.d %s: %d round_pow2 calls ahead of the walk; the rule is stated for one" % (inst, len(all_r)))
             continue
         arg = rcalls[0].args[0]
         a0, a1 = ('arg', s0), ('arg', s1)
@@ -130,4 +235,5 @@ def run(rep, tier):
         else:
             rep.ok("C14.d-curve", inst)
             rep.extra.setdefault("hilbert_induction", {})[inst] = dict(desc, verdict="induction closed: bijective, starts at the origin, consecutive positions edge-adjacent, for every k")
+    run_loaded(rep, tier)
     return hs
